@@ -10,7 +10,7 @@ EXTENDS Naturals, Integers, Sequences, TLC, Json, IOUtils
 
 Docs == ndJsonDeserialize(IOEnv.DOCS)
 
-LeafKinds == {"#comment", "#pi", "title", "desc", "metadata", "foreign", "anonsymbol"}
+LeafKinds == {"#comment", "#pi", "title", "desc", "metadata", "foreign", "anonsymbol", "metanest"}
 Kinds == LeafKinds \cup {"wrap", "foreignattr", "ws", "xmldecl"}
 
 VARIABLES di, kind, pos, dep
@@ -32,6 +32,8 @@ InsertLeaf(ns, p, d, k) ==
              THEN << Nd("symbol", d),
                      [d |-> d + 1, tag |-> "rect", id |-> "", at |-> << <<"fill", "red", 0>> >>,
                       g |-> <<0, 0, 16, 16, -1, -1>>, ref |-> ""] >>
+             ELSE IF k = "metanest"      \* descriptive elements nest: <metadata><title/><desc/></metadata>
+             THEN << Nd("metadata", d), Nd("title", d + 1), Nd("desc", d + 1) >>
              ELSE << Nd(k, d) >>
   IN SubSeq(ns, 1, p - 1) \o new \o SubSeq(ns, p, Len(ns))
 
